@@ -526,6 +526,9 @@ func run(e *hx.Env) *hx.Report {
 	lockset.Quiet()
 	corrPart(e, r)
 	lockTablePart(e, r)
+	live := hx.NewReport("C18", e.Tier, e.Seed, "")
+	liveDone := make(chan struct{})
+	go func() { defer close(liveDone); livenessPart(e, live) }()
 	names := []string{}
 	for _, s := range surfaces {
 		names = append(names, s.name)
@@ -672,6 +675,11 @@ func run(e *hx.Env) *hx.Report {
 		}()
 	}
 	wg.Wait()
+	<-liveDone
+	for k, v := range live.Extra {
+		r.Extra[k] = v
+	}
+	r.Violations = append(r.Violations, live.Violations...)
 
 	// minimise and report
 	sigs := make([]string, 0, len(found))
@@ -717,13 +725,22 @@ func run(e *hx.Env) *hx.Report {
 // lockTablePart: the regenerated lock-balance table (Lean definitions, through gxdrv_lockset): an acquisition that is
 // not released exactly once on every path is a violation of "do not keep a lock held" by itself.
 func lockTablePart(e *hx.Env, r *hx.Report) {
-	out, err := e.RunDriver("lockset", []string{"unbalanced"})
+	out, err := e.RunDriver("lockset", []string{"unbalanced", "reentrant"})
 	if err != nil {
 		r.Disagree = append(r.Disagree, hx.Disagreement{Where: "lockset driver", Impl: "-", Model: err.Error(),
 			Replay: e.WriteReplay("C18", "locks", "driver", []string{err.Error()}, nil)})
 		return
 	}
 	r.Extra["unbalanced_locks"] = out[0]
+	r.Extra["reentrant_locks"] = out[1]
+	if out[1] != "-" {
+		for _, sig := range strings.Fields(out[1]) {
+			r.Hit("locktable:reentrant")
+			r.Violations = append(r.Violations, hx.Violation{Signature: sig,
+				What:   "call made while holding a lock to a function that acquires it again (self deadlock; for a read lock as soon as a writer queues between the two RLocks): " + sig,
+				Replay: e.WriteReplay("C18", "locks", sanitize(sig), []string{"gxdrv_lockset op `reentrant` lists " + sig}, []string{"locktable"})})
+		}
+	}
 	if out[0] == "-" {
 		r.Hit("locktable:balanced")
 		return
@@ -733,6 +750,80 @@ func lockTablePart(e *hx.Env, r *hx.Report) {
 		r.Violations = append(r.Violations, hx.Violation{Signature: "lock-" + sig,
 			What:   "lock not released exactly once on every path of its function (leaked = some return leaves it held; unheld = released twice / without holding): " + sig,
 			Replay: e.WriteReplay("C18", "locks", sanitize(sig), []string{"gxdrv_lockset op `unbalanced` lists " + sig}, []string{"locktable"})})
+	}
+}
+
+// livenessPart: interleaving wedges are invisible to one-request-at-a-time fuzzing.  Run the mixed concurrent load of the
+// galaxy-ipam entry points (harness/cmd/c19/load, plain build) next to the fuzzing: readers (Filter incl. the
+// reserved-ip path allocateInSubnetWithKey -> First, queries, metrics) against writers (bind, unbind, release, reload,
+// pool API); every call must finish within the liveness bound.
+func livenessPart(e *hx.Env, r *hx.Report) {
+	var lmu sync.Mutex
+	set := func(k string, v interface{}) { lmu.Lock(); r.Extra[k] = v; lmu.Unlock() }
+	harness := filepath.Join(rootDir(), "harness")
+	bin := filepath.Join(rootDir(), "out", "bin", "gxh_c18_load")
+	args := []string{"build"}
+	if repo := os.Getenv("GALAXY_REPO"); repo != "" {
+		if real, _ := filepath.EvalSymlinks(repo); real != "" && real != "/repo" {
+			mf := filepath.Join(rootDir(), "out", "go.C18load.mod")
+			if gm, err := os.ReadFile(filepath.Join(harness, "go.mod")); err == nil {
+				os.WriteFile(mf, []byte(strings.Replace(string(gm), "=> /repo", "=> "+real, 1)), 0o644)
+				if sum, err := os.ReadFile(filepath.Join(real, "go.sum")); err == nil {
+					os.WriteFile(strings.TrimSuffix(mf, ".mod")+".sum", sum, 0o644)
+				}
+				args = append(args, "-modfile", mf)
+			}
+		}
+	}
+	args = append(args, "-tags", "verif", "-o", bin, "./cmd/c19/load")
+	cmd := exec.Command("go", args...)
+	cmd.Dir = harness
+	cmd.Env = append(os.Environ(), "GOFLAGS=-mod=mod", "GOPROXY=off", "GOSUMDB=off", "GOTOOLCHAIN=local", "CGO_ENABLED=0")
+	if out, err := cmd.CombinedOutput(); err != nil {
+		set("liveness_load", "build failed: "+tailStr(string(out), 400))
+		return
+	}
+	dur := "6s"
+	if e.Thorough() {
+		dur = "60s"
+	}
+	run := exec.Command(bin, "-mode", "load", "-only", "ipam", "-duration", dur, "-liveness", "8s", "-seed", fmt.Sprint(e.Seed))
+	var so, se bytes.Buffer
+	run.Stdout, run.Stderr = &so, &se
+	run.Env = append(os.Environ(), "GOMAXPROCS=4")
+	_ = run.Run()
+	var sum struct {
+		Ops    map[string]int `json:"ops"`
+		Wedged []string       `json:"wedged"`
+		Taken  int            `json:"reserved_taken"`
+		Panics []string       `json:"panics"`
+	}
+	ok := false
+	for _, l := range strings.Split(so.String(), "\n") {
+		if strings.HasPrefix(l, "{") && json.Unmarshal([]byte(l), &sum) == nil {
+			ok = true
+		}
+	}
+	if !ok {
+		set("liveness_load", "no summary: "+tailStr(se.String(), 400))
+		return
+	}
+	total := 0
+	for _, v := range sum.Ops {
+		total += v
+	}
+	set("liveness_load", fmt.Sprintf("%d calls of %d entry points in %s, filter took a reserved ip %d times, wedged %v", total, len(sum.Ops), dur, sum.Taken, sum.Wedged))
+	lmu.Lock()
+	defer lmu.Unlock()
+	seen := map[string]bool{}
+	for _, w := range sum.Wedged {
+		if seen[w] {
+			continue
+		}
+		seen[w] = true
+		r.Violations = append(r.Violations, hx.Violation{Signature: "wedged:load:" + w,
+			What:   "entry point " + w + " did not finish within 8 s under the mixed concurrent load (lock wedge)",
+			Replay: e.WriteReplay("C18", "load", "wedged-"+sanitize(w), strings.Split(tailStr(se.String(), 6000), "\n"), []string{"liveload seed=" + fmt.Sprint(e.Seed)})})
 	}
 }
 
@@ -804,6 +895,10 @@ func replay(e *hx.Env, r *hx.Report) *hx.Report {
 	s := &slot{}
 	defer func() { s.p.kill() }()
 	for _, o := range ops {
+		if strings.HasPrefix(o, "liveload") {
+			livenessPart(e, r)
+			continue
+		}
 		if o == "locktable" {
 			lockTablePart(e, r)
 			continue
